@@ -2,6 +2,7 @@ package main
 
 import (
 	"fmt"
+	"regexp"
 	"math/rand"
 	"os"
 	"path/filepath"
@@ -170,13 +171,13 @@ func (g *sgen) value(typ string, uniq int) string {
 	case "uint64":
 		return strconv.FormatUint(uint64(r.Intn(1<<30))*uint64(1+r.Intn(1000)), 10)
 	case "string":
-		return []string{"abc", "x", "hello world", "007", "1.50", "tRue", "a b", "é"}[r.Intn(8)]
+		return []string{"abc", "x", "hello world", "007", "1.50", "tRue", "a b", "é", "true", "0.0000001", "9007199254740993"}[r.Intn(11)]
 	case "bytes":
 		return []string{"abc", "x", "00"}[r.Intn(3)]
 	case "bool":
 		return []string{"true", "false", "1", "0"}[r.Intn(4)]
 	case "float", "double":
-		return []string{"1.5", "0.25", "-3", "100", "2.50"}[r.Intn(5)]
+		return []string{"1.5", "0.25", "-3", "100", "2.50", "0.3333333333333333", "0.0000001", "123456789.125"}[r.Intn(8)]
 	case "datetime":
 		return []string{"2024-01-02 03:04:05", "2023-12-31 23:59:59", "2024-02-29"}[r.Intn(3)]
 	case "duration":
@@ -358,9 +359,19 @@ func (w *workspace) writeXLSXBook(subdir string, b bookSpec, numeric bool) {
 					continue
 				}
 				axis, _ := excelize.CoordinatesToCellName(ci+1, ri+1)
-				if numeric && ri >= 3 {
+				if numeric && ri >= 3 && sheet != "@TABLEAU" {
 					if n, err := strconv.ParseInt(cell, 10, 64); err == nil && strconv.FormatInt(n, 10) == cell && n > -(1<<50) && n < (1<<50) {
 						f.SetCellInt(sheet, axis, int(n))
+						continue
+					}
+					if plainDecimalRe.MatchString(cell) {
+						if fl, err := strconv.ParseFloat(cell, 64); err == nil {
+							f.SetCellValue(sheet, axis, fl)
+							continue
+						}
+					}
+					if cell == "true" || cell == "false" {
+						f.SetCellBool(sheet, axis, cell == "true")
 						continue
 					}
 				}
@@ -377,6 +388,27 @@ func (w *workspace) writeXLSXBook(subdir string, b bookSpec, numeric bool) {
 	if err := f.SaveAs(filepath.Join(dir, b.Name+".xlsx")); err != nil {
 		panic(err)
 	}
+}
+
+var plainDecimalRe = regexp.MustCompile(`^-?[0-9]+(\.[0-9]+)?$`)
+
+// csvTwinOf reads an .xlsx file back with excelize (formatted cell text, the way a spreadsheet program
+// exports it) and returns the workbook as CSV sheets: the CSV twin of exactly that file.
+func csvTwinOf(path string, b bookSpec) bookSpec {
+	f, err := excelize.OpenFile(path)
+	if err != nil {
+		panic(err)
+	}
+	defer f.Close()
+	out := bookSpec{Name: b.Name, NoMeta: true}
+	for _, name := range f.GetSheetList() {
+		rows, err := f.GetRows(name)
+		if err != nil {
+			panic(err)
+		}
+		out.Sheets = append(out.Sheets, sheetSpec{Name: name, Rows: rows})
+	}
+	return out
 }
 
 func debugBook(b bookSpec) string {
